@@ -37,7 +37,7 @@ def builtin_name(I, name):
     if name in ("int", "bool", "float", "str", "bytes", "bytearray", "memoryview", "list", "dict", "set", "tuple", "object", "type", "frozenset"):
         return VType(name)
     if name in ("len", "sum", "min", "max", "any", "all", "isinstance", "range", "round", "sorted", "filter", "print", "hex", "abs",
-                "enumerate", "zip", "getattr", "setattr", "repr", "exit", "iter", "next", "reversed", "issubclass", "hasattr", "id", "map", "callable"):
+                "enumerate", "zip", "getattr", "setattr", "repr", "exit", "iter", "next", "reversed", "issubclass", "hasattr", "id", "map", "callable", "ord", "chr"):
         return VBuiltin(name)
     if name in I.spec_builtins:
         return VBuiltin("spec." + name)
@@ -94,6 +94,9 @@ def vkey(I, v):
         return ("f", v.c) if v.c is not None else ("ft", tid(v.t))
     if isinstance(v, VRef):
         return ("ref", v.ref)
+    from .loader import ClassInfo
+    if isinstance(v, ClassInfo):
+        return ("cls", v.qualname)
     raise Unsupported(f"opaque function argument {v!r}")
 
 
@@ -307,6 +310,31 @@ def call_builtin(I, fv, args, kwargs):
         return I.call_spec(name[5:], args, kwargs)
     from . import libmodels
     return libmodels.call(I, fv, args, kwargs)
+
+
+def b_ord(I, fv, args, kw):
+    v = I.resolve(args[0])
+    if isinstance(v, VBytes):
+        n = v.length()
+        if (isinstance(n, int) and n != 1) or (not isinstance(n, int) and I.path.branch(_iv(n) != 1, "ord_len")):
+            I.raise_py("builtins.TypeError", "ord() expected a character")
+        return byte_val(v.at(0))
+    if isinstance(v, VStr) and v.c is not None:
+        if len(v.c) != 1:
+            I.raise_py("builtins.TypeError", "ord() expected a character")
+        return mkint(ord(v.c))
+    if isinstance(v, VStr):
+        raise Unsupported("ord of a symbolic string")
+    I.raise_py("builtins.TypeError", "ord() expected string of length 1")
+
+
+def b_chr(I, fv, args, kw):
+    v = I.resolve(args[0])
+    if isinstance(v, VInt) and v.c is not None:
+        if not 0 <= v.c <= 0x10FFFF:
+            I.raise_py("builtins.ValueError", "chr() arg not in range")
+        return VStr(c=chr(v.c))
+    raise Unsupported("chr of a symbolic value")
 
 
 def b_len(I, fv, args, kw):
@@ -526,7 +554,7 @@ def b_namedtuple(I, fv, args, kw):
 _TABLE = {
     "len": b_len, "sum": b_sum, "min": b_minmax, "max": b_minmax, "any": b_anyall, "all": b_anyall,
     "isinstance": b_isinstance, "range": b_range, "round": b_round, "filter": b_filter, "sorted": b_sorted,
-    "getattr": b_getattr, "enumerate": b_enumerate, "zip": b_zip, "abs": b_abs, "hex": b_hex, "repr": b_repr,
+    "getattr": b_getattr, "enumerate": b_enumerate, "zip": b_zip, "abs": b_abs, "hex": b_hex, "repr": b_repr, "ord": b_ord, "chr": b_chr,
     "print": b_print, "collections.namedtuple": b_namedtuple,
 }
 
@@ -1031,6 +1059,10 @@ def sym_len(I, ref, o):
         return acc
     if o.kind == "ext" and o.meta.get("len") is not None:
         return o.meta["len"]
+    if o.kind == "ext" and o.meta.get("tag") == "json":
+        from . import libmodels
+        libmodels.used(I, "len(json value): the number of members (TypeError for numbers, booleans and null is not modelled)")
+        return libmodels.json_len(I, ref)
     raise Unsupported(f"len of {o.kind}")
 
 
